@@ -343,6 +343,20 @@ class Engine:
             if before != after:
                 self.violate("C17.completed_once", {"probe": rec.id, "second deactivation changed the stages": [before, after]})
             return "again"
+        if (rec is not None and op.get("early") and not rec.entered and not rec.dead and rec.obj is not None
+                and rec.spec.get("kind", "probe") != "overlay"):
+            # deactivated before any activation: it is not active, so nothing completes
+            self.sim.reach("deactivated_before_activation")
+            mine = [st for st in rec.stages if not st.get("post")]
+            before = [list(st["next"]) for st in mine], [st["completed"] for st in mine]
+            try:
+                rec.obj.__exit__(None, None, None)
+            except Exception:
+                pass
+            after = [list(st["next"]) for st in mine], [st["completed"] for st in mine]
+            if before != after:
+                self.violate("C17.completed_once", {"probe": rec.id, "deactivation before activation changed the stages": [before, after]})
+            return "early"
         if rec is None or not rec.active:
             return "noop"
         target = rec.obj if rec.obj is not None else rec.overlay
@@ -429,8 +443,13 @@ class Engine:
             # deactivation, and must not
             return "noop-probe-active"
         how = op.get("how")
-        if how == "decorate" and (getattr(sysv.mod, op["fn"], None) is not f or f.__qualname__ != op["fn"]):
-            # only a plain top-level def can have been written with '@tooled' above it here
+        holder = sysv.mod
+        for part in op["fn"].split(".")[:-1]:
+            holder = getattr(holder, part, None)
+        leaf = op["fn"].split(".")[-1]
+        if how == "decorate" and (getattr(holder, "__dict__", {}).get(leaf) is not f or f.__qualname__ != op["fn"]):
+            # only a plain def (at the top level, or in a class body) can have been written with
+            # '@tooled' above it here
             how = "inplace"
         try:
             if how == "inplace":
@@ -441,7 +460,7 @@ class Engine:
                 # what '@tooled' above the def does: the name is bound to the tooled copy, the
                 # function the def created is left to itself
                 new = ptera.tooled(f)
-                setattr(sysv.mod, op["fn"], new)
+                setattr(holder, leaf, new)
                 self.sim.orig_code[op["fn"]] = new.__code__
                 self.tooled_inplace.add(op["fn"])
             else:
